@@ -356,6 +356,7 @@ def frame_diff(before, after, phase):
 def run(ctx):
     pyr = random.Random(ctx.seed)
     ctx.proof_layer(allowed_axioms=(), coq_deps=["Corr/RunState"])
+    core.note_drift(ctx, ANCHORS)
     ncases = ctx.budget(300, 3000)
     data_rng = np.random.default_rng(5)
     cases = [gen_case(pyr) for _ in range(ncases)]
